@@ -32,8 +32,8 @@ OBLIGATIONS = [NS + t for t in [
     "restatement_equiv_perm_vars",
 ]]
 TRUSTED = [
-    "Lean 4.33.0 kernel; Mathlib modules Mathlib.Algebra.Order.Field.Basic, Mathlib.Tactic.Ring/Linarith/Positivity/FieldSimp "
-    "(only in Proofs/Program*.lean and Props/C04.lean)",
+    "Lean 4.33.0 kernel; Mathlib modules Mathlib.Algebra.Order.Field.Basic, Mathlib.Tactic.Ring/Linarith/Positivity/FieldSimp/NormNum, "
+    "Mathlib.Algebra.Order.Field.Rat and Mathlib.Analysis.Real.Sqrt (non-vacuity examples) — only in Proofs/Program*.lean and Props/C04.lean",
     "axioms: at most propext, Classical.choice, Quot.sound (audited per theorem on every run)",
     "NanoVerif/Gen/ProgramDone.lean (program_t::feasible and the status decision of solver_t::done) is re-translated from "
     "src/program/solver.cpp on every run by tools/props/c04_translate.py (boolean skeleton parsed, leaves from a fixed table)",
@@ -53,8 +53,9 @@ ASSUMPTIONS = [
     "kkt_gap_bound assumes Q symmetric positive semidefinite (as a hypothesis on the bilinear form) and u >= 0; the solver does not check convexity",
     "correspondence tolerances: values RTOL 1e-9 plus an absolute floor 1e-13 x (magnitude of the summed terms, computed from n,p,m and "
     "the inf-norms of x,u,v: the normalised data have entries <= 1); normalised data RTOL 1e-11 + 1e-14; decisions (stage-1/2 "
-    "acceptance, epsilon0 test, feasibility flag, status) are compared only when their margin exceeds 64 ulp x that magnitude "
-    "(the evidence of a run counts compared/skipped decisions: see CMP_STATS)",
+    "acceptance, epsilon0 test, feasibility flag, status) are compared only when their margin exceeds 4 (n+p+m+3) ulp x the "
+    "magnitude of the terms behind the two compared quantities (driver_c04 evaluates the same model functions on |data|, |x|, |u|, |v| "
+    "to get it); compare_why counts compared / skipped decisions in CMP_STATS",
     "when program::reduce removed dependent equality rows the reduced normalised (A,b) are taken from the trace (FullPivLU is an oracle); "
     "feasibility w.r.t. the caller's equalities is then checked by the python oracle on the returned point",
     "the default x0 (make_strictly_feasible) is read back through the public API and is an input of the model",
@@ -64,7 +65,8 @@ RULE = ("KKT-constructed LPs/convex QPs with exactly representable data (n 1..12
         "75% with a Slater direction) whose optimum is certified by an exact rational KKT check; small integer programs (n<=3, p<=2, "
         "m<=6, feasible or not, bounded or not) decided by exact rational simplex / active-set enumeration; all 540 one-variable programs "
         "with coefficients in {-1,0,1} (thorough; half of them in quick); every base program as stated and under 2 (quick) / all applicable "
-        "(thorough) of the restatements dupeq, combeq, mixeq, scaleeq, scaleineq, scaleobj, permvars, permrows; default and user x0. "
+        "(thorough) of the restatements dupeq, combeq, mixeq, scaleeq, scaleineq, scaleobj, permvars, permrows; default and user x0; "
+        "15% of the base programs with non-default solver parameters (s0, miu, alpha, beta, epsilon up to 1e-3, epsilon0). "
         "A case is non-trivial when the program has >= 2 variables and its certified optimal active set is non-empty and not all "
         "inequalities (KKT witness) or it has >= 2 inequalities (enumerated); distinct by op text")
 FLAVOUR = {"quick": "plain", "thorough": "asan"}
@@ -72,7 +74,7 @@ HARNESS_TIMEOUT = 3000
 
 RTOL = 1e-9
 FLOOR = 1e-13          # absolute floor of value comparisons, times the magnitude of the summed terms
-DFLOOR = 64 * 2.0 ** -53  # a decision is compared when its margin exceeds this, times the magnitude of the summed terms
+DULP = 4 * 2.0 ** -53     # a decision is compared when its margin exceeds DULP (n+p+m+3) x the magnitude of the summed terms
 RKINDS = ["none", "dupeq", "combeq", "mixeq", "scaleeq", "scaleineq", "scaleobj", "permvars", "permrows"]
 STATUS = {0: "max_iters", 1: "converged", 2: "failed", 3: "unfeasible", 4: "unbounded"}
 
@@ -560,6 +562,7 @@ def compare_why(aug, impl, model):
         if not vnear(a.fs(), b.fs(), 1e-11, 1e-14):
             return "normalised " + name
     p = p_i; m = len(c["stated"]["h"])
+    th = DULP * (n + p + m + 3)   # the driver prints margins relative to the magnitude of the terms behind both sides
     uncertain = False
     recs = list(c["recs"])
     if m > 0:
@@ -568,7 +571,7 @@ def compare_why(aug, impl, model):
         st_i, st_m, mg = a.int(), b.int(), b.f()
         x0 = c["stated"]["x0"]
         if st_i != st_m:
-            if mg > DFLOOR * (n * ninf(x0) + 1):
+            if mg > th:
                 return f"start decision: impl {st_i} model {st_m} margin {mg:.3e}"
             return None
     k = 0            # index into recs
@@ -622,7 +625,7 @@ def compare_why(aug, impl, model):
             smax = b.f(); s1_m = b.of(); mg1 = b.f(); s2_m = b.of(); mg2 = b.f(); kind_m = b.int(); mgk = b.f()
             sx = n * (ninf(x) + abs(s1_i) * ninf(dx)) + 1
             CMP_STATS["stage1"] += 1
-            if mg1 <= DFLOOR * sx:
+            if mg1 <= th:
                 uncertain = True; CMP_STATS["stage1-skipped"] += 1
             elif s1_m is None or not near(s1_i, s1_m, 1e-12, 0):
                 return f"stage 1: impl s = {s1_i!r}, model {s1_m!r} (smax {smax!r}, margin {mg1:.3e})"
@@ -631,9 +634,8 @@ def compare_why(aug, impl, model):
             moved = None
             if nxt is not None:
                 moved = nxt[1] != x or nxt[2] != u or nxt[3] != v
-            res_scale = math.sqrt(n + p + m) * (sx + p * ninf(v) + m * ninf(u) + ninf(u) * sx * 2)
             CMP_STATS["stage2"] += 1
-            if mg2 <= DFLOOR * res_scale or uncertain:
+            if mg2 <= th or uncertain:
                 uncertain = True; CMP_STATS["stage2-skipped"] += 1
                 continue
             if nxt is None:
@@ -647,9 +649,8 @@ def compare_why(aug, impl, model):
                         if not near(wi + s2_m * di, wni, 1e-12, 1e-300):
                             return f"stage 2: next {nm} is not {nm} + s2 d{nm} with the model's s2 = {s2_m!r}"
                 kind_i = 0 if nxt[0] == "I" else 1
-                tol = RTOL * par["epsilon0"] + DFLOOR * res_scale
                 CMP_STATS["eps0"] += 1
-                if mgk <= tol:
+                if mgk <= th:
                     uncertain = True; CMP_STATS["eps0-skipped"] += 1
                 elif kind_i != kind_m:
                     return f"epsilon0 test: impl {'stops' if kind_i else 'continues'}, model kind {kind_m} (margin {mgk:.3e})"
@@ -660,10 +661,8 @@ def compare_why(aug, impl, model):
             feas_i = a.int(); eta_i = a.f(); rd_i = a.f(); rp_i = a.f(); fx_i = a.f()
             feas_m = b.int(); mgf = b.f(); eta_m = b.f(); rd_m = b.f(); rp_m = b.f(); fx_m = b.f(); st_m = b.int(); mgs = b.f()
             CMP_STATS["done"] += 1
-            if uncertain:
-                CMP_STATS["done-skipped"] += 1
-                continue
-            if mgf <= DFLOOR * math.sqrt(p + 1) * sx:
+            uncertain = False     # `done` is a function of the logged point alone (whatever path led to it)
+            if mgf <= th:
                 uncertain = True; CMP_STATS["done-skipped"] += 1
                 continue
             if feas_i != feas_m:
@@ -676,7 +675,7 @@ def compare_why(aug, impl, model):
                 return "|rprim| at done"
             if not near(fx_i, fx_m, RTOL, FLOOR * (abs(mufx_i) * (n * n * nx * nx + n * nx) + 1e-300)):
                 return "fx at done"
-            if mgs <= DFLOOR * math.sqrt(n + p + 1) * (sx + p * nv + m * nu + m * nu * sx):
+            if mgs <= th:
                 uncertain = True; CMP_STATS["status-skipped"] += 1
         elif ta == "Z":
             _, x, v = rec
@@ -692,7 +691,7 @@ def compare_why(aug, impl, model):
                 return "noineq: rdual"
             if not vnear(rp_i, rp_m, RTOL, FLOOR * sx):
                 return "noineq: rprim"
-            if mga <= DFLOOR * math.sqrt(n + p) * (sx + p * nv):
+            if mga <= th:
                 uncertain = True
             elif ap_i != ap_m:
                 return f"noineq: isApprox impl {ap_i} model {ap_m} (margin {mga:.3e})"
